@@ -3,6 +3,7 @@ package main
 import (
 	"bytes"
 	"context"
+	"encoding/json"
 	"fmt"
 	"os"
 	"os/exec"
@@ -111,6 +112,26 @@ func Discharge(name, query string, timeoutS int, wantModel bool) SolveResult {
 		return SolveResult{Status: "error", Output: err.Error()}
 	}
 	defer os.Remove(file)
+	// solver hint (an optimisation only: which back end discharged this obligation when the hints file
+	// was last regenerated): try that one first with the full budget
+	if h := solverHint(name); h != "" && h != "z3-new" {
+		for _, sp := range solvers {
+			if sp.name != h {
+				continue
+			}
+			hf := stem + ".h.smt2"
+			hdr := hdrZ3
+			if h == "cvc5" {
+				hdr = hdrCvc5
+			}
+			_ = os.WriteFile(hf, []byte(hdr+query), 0o644)
+			rh := runSolver(context.Background(), sp, hf, timeoutS)
+			os.Remove(hf)
+			if rh.Status == "unsat" {
+				return rh
+			}
+		}
+	}
 	slice := 5
 	if timeoutS < slice {
 		slice = timeoutS
@@ -174,4 +195,20 @@ func Probe(name, query string) SolveResult {
 	}
 	defer os.Remove(file)
 	return runSolver(context.Background(), solvers[0], file, 2)
+}
+
+var hintsOnce sync.Once
+var hints map[string]string
+
+// solverHint reads /verif/solver_hints.json (obligation name -> solver). The file is regenerated only by
+// `govc hints` from the evidence of the last runs; it is never written by a check.
+func solverHint(name string) string {
+	hintsOnce.Do(func() {
+		hints = map[string]string{}
+		b, err := os.ReadFile(filepath.Join(verifDir(), "solver_hints.json"))
+		if err == nil {
+			_ = json.Unmarshal(b, &hints)
+		}
+	})
+	return hints[name]
 }
